@@ -22,7 +22,8 @@ CONSTANTS
     Amts,          \* deposit amounts / targets offered
     Signers,          \* who may sign an attachment besides the right key
     RenewKinds,       \* {"renew", "refresh", "refreshpartial"} or a subset
-    MaxExchanges      \* Leg R export: exchanges started per path
+    MaxExchanges,     \* Leg R export: exchanges started per path
+    Dur               \* remaining duration (blocks) of the formed contract
 
 VARIABLES phase,      \* "setup" | "run"
           left        \* Leg R export: exchanges that may still be started
@@ -31,7 +32,7 @@ mcview == <<view, phase, left>>
 
 Formed(n) == [num |-> 0, rout |-> Allowance, hout |-> Collateral + CPrice, missed |-> Collateral,
               coll |-> Collateral, size |-> n, cap |-> n, commit |-> [i \in 1..n |-> i],
-              ph |-> 100, eh |-> 244, rk |-> "rk", hk |-> "hk"]
+              ph |-> 100, eh |-> 244, dur |-> Dur, rk |-> "rk", hk |-> "hk"]
 
 Start(n) ==
     /\ rev = Formed(n)
@@ -43,7 +44,7 @@ Start(n) ==
     /\ pex = {}
     /\ att = [a \in Accounts |-> <<>>]
     /\ lock = 0
-    /\ renewed = FALSE
+    /\ olds = <<>>
     /\ sess = [s \in Sessions |-> IdleS]
     /\ act = [op |-> "Init"]
     /\ reply = NoneR
@@ -81,7 +82,7 @@ Setup(n, L) ==
     /\ act' = [op |-> "Setup", n |-> n]
     /\ reply' = NoneR
     /\ calls' = <<>>
-    /\ UNCHANGED <<stored, lock, renewed, sess, left>>
+    /\ UNCHANGED <<stored, lock, olds, sess, left>>
 
 -----------------------------------------------------------------------------
 (* what the renter may send *)
@@ -110,6 +111,10 @@ AttachChoices ==
 DetachChoices ==
     {<<>>}
     \cup {<<Entry(a, p, by, vf)>> : a \in Accounts, p \in Pools, by \in (Accounts \cup Pools \cup Signers), vf \in VF}
+    \* batches: every entry takes effect on its own, also next to entries that are no-ops (never attached,
+    \* already detached) in any position, or not at all if one entry is not authorised
+    \cup {<<Entry(a, p, p, "ok"), Entry(b, q, q, "ok")>> : a \in Accounts, b \in Accounts, p \in Pools, q \in Pools}
+    \cup {<<Entry(a, p, a, "ok"), Entry(b, q, "x", "ok")>> : a \in Accounts, b \in Accounts, p \in Pools, q \in Pools}
 
 ReadUnits == {0, 1, 2}
 SecIds == {1, UnknownSector}
@@ -150,6 +155,14 @@ AccountsBegin(s) ==
     \/ \E a \in Accounts : BeginBalance(s, a)
 AccountsRound2(s) == \E sf \in SF : Round2Repl(s, sf)
 
+\* the host's part of a renewal (model checking: one plausible choice; the property is silent on it)
+XOf(kind, C) ==
+    [hout |-> IF kind = "refresh" THEN rev.hout + C + CPrice ELSE C + CPrice,
+     coll |-> IF kind = "refresh" THEN rev.coll + C ELSE C,
+     ph |-> IF kind = "renew" THEN rev.ph + 10 ELSE rev.ph,
+     eh |-> IF kind = "renew" THEN rev.eh + 10 ELSE rev.eh,
+     dur |-> IF kind = "renew" THEN rev.dur + 10 ELSE rev.dur]
+
 RevisionsBegin(s) ==
     \/ \E idx \in {<<>>, <<0>>, <<1, 0>>, <<0, 0>>, <<rev.size>>}, pf \in PF, cf \in CF : BeginFree(s, idx, pf, cf)
     \/ \E secs \in {<<1>>, <<U, 2>>}, pf \in PF, cf \in CF : BeginAppend(s, secs, pf, cf)
@@ -159,12 +172,12 @@ RevisionsBegin(s) ==
     \/ \E deps \in OneDep, sf \in SF : BeginFund(s, deps, sf, "ok")
     \/ \E a \in Accounts, t \in Amts, cf \in CF : BeginRepl(s, "accts", <<a>>, t, cf, "ok")
     \/ \E p \in Pools, t \in Amts, cf \in CF : BeginRepl(s, "pools", <<p>>, t, cf, "ok")
-    \/ \E kind \in RenewKinds, pf \in PF, cf \in CF, rf \in {"ok", "bad"} : BeginRenew(s, kind, pf, cf, rf)
+    \/ \E kind \in RenewKinds, pf \in PF, cf \in CF, rf \in {"ok", "bad"} : BeginRenew(s, kind, pf, cf, rf, Allowance, Collateral)
 RevisionsRound2(s) ==
     \/ \E sf \in SF : Round2Free(s, sf)
     \/ \E sf \in SF : Round2Append(s, sf)
     \/ \E sf \in SF : Round2Repl(s, sf)
-    \/ \E sf \in SF : Round2Renew(s, sf)
+    \/ \E sf \in SF : Round2Renew(s, sf, XOf(sess[s].kind, sess[s].coll))
 
 \* Leg R, second renter: a few honest requests racing the first renter's exchange
 SmallBegin(s) ==
@@ -207,17 +220,20 @@ MCNext ==
 
 MCSpec == MCInit /\ [][MCNext]_mcvars
 
-Bound == rev.num <= MaxNum
+\* the commit budget counts the commits on the replaced contract, the renewal itself and the commits on the
+\* renewal; at most one renewal
+Commits == IF olds = <<>> THEN rev.num ELSE olds[1].rev.num + 1 + rev.num
+Bound == Commits <= MaxNum /\ Len(olds) <= 1
 
 \* Leg R export: every explored transition as one JSON line (ACTION_CONSTRAINT)
 Proj(r, rt, st, ac, po, px, at, lk, rn, se, ph, lf) ==
     [rev |-> r, roots |-> rt, stored |-> st, acct |-> ac, pool |-> po, pex |-> px, att |-> at,
-     lock |-> lk, renewed |-> rn, sess |-> se, phase |-> ph, left |-> lf]
+     lock |-> lk, olds |-> rn, sess |-> se, phase |-> ph, left |-> lf]
 EmitEdge ==
     PrintT("EDGE " \o ToJson([
-        from |-> Proj(rev, roots, stored, acct, pool, pex, att, lock, renewed, sess, phase, left),
+        from |-> Proj(rev, roots, stored, acct, pool, pex, att, lock, olds, sess, phase, left),
         act |-> act', reply |-> reply', calls |-> calls',
-        to |-> Proj(rev', roots', stored', acct', pool', pex', att', lock', renewed', sess', phase', left')]))
+        to |-> Proj(rev', roots', stored', acct', pool', pex', att', lock', olds', sess', phase', left')]))
 
 \* the list-model lemma as a (state-independent) invariant, for its own cfg
 ListModelLemma == ListModelUpTo(MaxIdxLen)
